@@ -200,7 +200,13 @@ func (c *concReader) seek(offset int64, whence int, limit int64) (int64, error) 
 	if limit > c.decompressedSize {
 		limit = c.decompressedSize
 	}
-	c.posLimit = limit
+	if c.posLimit != limit {
+		// The Manager and Workers are working on the region of interest
+		// Range{c.pos, c.posLimit} as of the last resolved seek. A different
+		// limit needs a different region, even if c.pos is unchanged.
+		c.posLimit = limit
+		c.seekResolved = false
+	}
 
 	return pos, nil
 }
